@@ -27,3 +27,8 @@ package query
 //@   ensures result1 - result0 == opt.Interval.Duration
 //@   ensures (result0 - opt.Interval.Offset) % opt.Interval.Duration == 0
 //@   assigns nothing
+
+// ================================================================ C19: execution options name the database asked for
+//@ prop C19
+//@ func NewExecutionOptions
+//@   ensures result != nil && result.Database == db
